@@ -150,10 +150,31 @@ Definition samples_of (c : case) : list qsample :=
   map (fun t => let '(x, y, w) := t in {| qs_x := map f64_Q x; qs_y := N.to_nat y; qs_w := f64_Q w |})
       (zip3 (c_X c) (c_y c) (c_w c)).
 
+(** ** Rounding allowance for the f32 weight sums
+
+    The checker works with the exact rational sample weights; the code compares f32 running sums
+    (class tables filled in row order, `weight_on_right_side -= w`, `weight_on_left_side += w`).
+    When every weight is a multiple of 1/4 up to 2^14 and n <= 2^8, every partial sum is an integer
+    number of quarter units not above 2^24, hence exact in binary32, and nothing is allowed.  Otherwise each running sum
+    of at most n operations is within n * 2^-24 (1 + o(1)) of the exact sum, relative to the weight
+    of the node it belongs to: the stated allowance is n * 2^-23 of the node's weight for
+    min_weight_leaf and for the leaf majority, and [dec_slack_factor] * n * 2^-23 on top of 2^-18
+    for the reported impurity decrease (calibrated: the harness reports the worst observed error in
+    these units, `worst_decrease_error_beyond_2p-18_in_permille_of_n_2p-23`). *)
+Definition dyadic_weight (w : float) : bool :=
+  let q := Qred (f64_Q w * 4) in
+  Z.eqb (Zpos (Qden q)) 1 && Qleb 0 q && Qleb q 65536.
+Definition exact_sums (c : case) : bool :=
+  forallb dyadic_weight (c_w c) && Nat.leb (length (c_X c)) 256.
+Definition wslack (c : case) : Q :=
+  if exact_sums c then 0%Q else (inject_Z (Z.of_nat (length (c_X c))) / 8388608)%Q.
+Definition dec_slack_factor : Q := 2%Q.
+
 Definition qparams_of (c : case) : qparams :=
   {| qp_maxdepth := option_map N.to_nat (c_maxdepth c);
      qp_mws := f64_Q (c_mws c); qp_mwl := f64_Q (c_mwl c); qp_mid := f64_Q (c_mid c);
-     qp_tol := tol_dec; qp_ncls := N.to_nat (c_ncls c); qp_le := c_le c |}.
+     qp_tol := (tol_dec + dec_slack_factor * wslack c)%Q; qp_ncls := N.to_nat (c_ncls c); qp_le := c_le c;
+     qp_wslack := wslack c; qp_nfeat := N.to_nat (c_nfeat c) |}.
 
 Fixpoint tree_finite (t : tree float) : bool :=
   match t with
